@@ -401,7 +401,7 @@ const tDiff = "TestVerifC16LocationsDiff"
 func TestVerifC16LocationsDiff(t *testing.T) {
 	maxLen := vt.Pick(4, 5)
 	rec := vt.New("C16", "locations-diff",
-		fmt.Sprintf("complete enumeration of all pairs of lists of length <= %d over a 3-letter alphabet of location strings, plus rapid-generated long lists (up to 40 entries over 6 locations); oracle: nil iff the lists are equal; otherwise the unprefixed and '- ' lines reproduce the left list and the unprefixed and '+ ' lines reproduce the right list, in order; non-trivial = lists differ; distinct by pair", maxLen))
+		fmt.Sprintf("the process's own Func registry (locations pairwise distinct and naming the call sites of bigslice.Func; a registry with two entries exchanged must not compare equal); complete enumeration of all pairs of lists of length <= %d over a 3-letter alphabet of location strings, plus rapid-generated long lists (up to 40 entries over 6 locations); oracle: nil iff the lists are equal; otherwise the unprefixed and '- ' lines reproduce the left list and the unprefixed and '+ ' lines reproduce the right list, in order; non-trivial = lists differ; distinct by pair", maxLen))
 	docs, only := vt.Replays(tDiff)
 	for _, d := range docs {
 		var c struct{ Lhs, Rhs []string }
@@ -416,6 +416,41 @@ func TestVerifC16LocationsDiff(t *testing.T) {
 	}
 	if only || t.Failed() {
 		return
+	}
+	// the registry of this very process: every Func registered by this test binary was created on a line
+	// of its own, so the recorded locations must name those lines (pairwise distinct, in the files that
+	// call bigslice.Func) - otherwise no comparison of location lists can tell two registries apart
+	if vt.Shard() == 0 {
+		regs := bigslice.FuncLocations()
+		rec.Case(true, vt.Hash("registry", len(regs)), "own-registry")
+		seenLoc := map[string]bool{}
+		var regErr error
+		for i, l := range regs {
+			switch {
+			case seenLoc[l]:
+				regErr = fmt.Errorf("the registry of this process records location %q for more than one Func (entry %d): Funcs created at different call sites are indistinguishable to the registry comparison", l, i)
+			case !strings.Contains(l, "_test.go:") && !strings.Contains(l, "zzverif/"):
+				regErr = fmt.Errorf("registry entry %d records location %q, which is not a call site of bigslice.Func in this test binary", i, l)
+			}
+			seenLoc[l] = true
+		}
+		if len(regs) < 8 {
+			regErr = fmt.Errorf("the registry holds %d Funcs, this test binary registers at least 8", len(regs))
+		}
+		if regErr == nil {
+			for i := 0; i+1 < len(regs) && i < 6; i++ {
+				swapped := append([]string{}, regs...)
+				swapped[i], swapped[i+1] = swapped[i+1], swapped[i]
+				if d := bigslice.FuncLocationsDiff(regs, swapped); len(d) == 0 {
+					regErr = fmt.Errorf("the registry with entries %d and %d exchanged compares equal to the registry", i, i+1)
+				}
+			}
+		}
+		if regErr != nil {
+			rec.Violation(tDiff, "locations-registry", regErr.Error(), map[string]interface{}{"registry": regs})
+			t.Errorf("%v", regErr)
+			return
+		}
 	}
 	alpha := []string{"a.go:1", "b.go:22", "c.go:333"}
 	var lists [][]string
